@@ -296,10 +296,20 @@ func checkSamplerInventory(r *Run) {
 			into[s] += c
 		}
 		info := fd.Pkg.TypesInfo
+		hu := r.G.UnitOf(fd)
 		ast.Inspect(fd.Decl.Body, func(n ast.Node) bool {
 			if c, ok := n.(*ast.CallExpr); ok {
 				if h := r.unexportedHelper(info, c); h != nil {
-					expand(h, into, seen, depth+1)
+					sub := map[string]int{}
+					expand(h, sub, seen, depth+1)
+					ps := newParamSubst(hu, c)
+					sfx := ""
+					if lc := hu.loopContext(c); len(lc) > 0 {
+						sfx = strings.Join(lc, " / ")
+					}
+					for s, cnt := range sub {
+						into[mergeContexts(ps.apply(s), sfx, "")] += cnt
+					}
 				}
 			}
 			return true
